@@ -127,7 +127,9 @@ def check_long(case):
 
 def enum_long(tier):
     sizes = [4095, 4096, 4097, 8191, 8192, 8193, 16384, 32767, 32768, 32769, 65535, 65536, 65537, 131072, 262143, 262144, 262145,
-             524288, 1048575, 1048576, 1048577]
+             524288, 1048575, 1048576, 1048577,
+             # round decimal sizes and odd multiples of 64 KiB: block sizes a programmer may pick
+             10000, 100000, 1000000, 999999, 1000001, 3 * 65536, 5 * 65536, 3 * 262144, 200000, 500000]
     if tier != 'quick':
         sizes += [131071, 131073, 3 * 262144, 2097152, 2097153, 4194304]
     for i, n in enumerate(sizes):
